@@ -24,6 +24,13 @@ func marshal(p *lang.Process, v any) ([]byte, error) {
 
 	case []any:
 		for i := range t {
+			if t[i] == nil {
+				// json.Marshal reports "no data returned" for nil
+				jsonl = append(jsonl, []byte("null")...)
+				jsonl = append(jsonl, utils.NewLineByte...)
+				continue
+			}
+
 			b, err = json.Marshal(t[i], p.Stdout.IsTTY())
 			if err != nil {
 				err = fmt.Errorf("unable to marshal %T on line %d: %s", v.([]any)[i], i, err)
